@@ -32,7 +32,7 @@ def run(ctx):
     ctx.rule("P3", "Status/Arbiter/Dispatcher: request <- ongoing of the same master; connect gated by grant == same "
                    "index; selector latched only on first; default arm drains", min_sites=14)
     ctx.rule("P4", "per-packet FSM registers (word counter, from-idle marker) are re-initialised in IDLE / on every exit of IDLE: "
-                   "nothing is inherited from the previous packet", min_sites=3)
+                   "nothing is inherited from the previous packet", min_sites=4)
     ctx.rule("PRIO", "no dead driver", min_sites=4)
 
     # ---- Packetizer / Depacketizer
@@ -45,6 +45,13 @@ def run(ctx):
         s4_hold(ctx, "S4", fx, cls, info, [("self.source.valid", "self.source.ready")])
         fsm_sanity(ctx, "S7", fx, cls)
         fsm_txn_state(ctx, "P4", fx, cls)
+        if cls == "Packetizer":
+            # the final beat is emitted from the stored `last` with sink.ready low: the accepted-beat load cannot clear it
+            cl = [a for a in fx.find(domain="sync", target="sink_d.last") if a.v == "0"]
+            ok = len(cl) == 1 and B.equivalent(cl[0].eff(), B.from_expr("self.source.valid & self.source.ready & self.source.last"))
+            ctx.ob("P4", PACKET, cls, "stored last flag cleared when the packet's last beat is handed over", ok,
+                   "" if ok else f"{[(a.v, a.gtext()) for a in cl]}: the next packet starts with last already set (terminated on its first "
+                                 f"data beat, its word never accepted)", cl[0].line if cl else 0)
         prio(ctx, "PRIO", fx, cls)
         # S3: `count` steps (value count + 1) only on a transferred word of the state
         hs = "self.source.valid & self.source.ready" if cls == "Packetizer" else "self.sink.valid & self.sink.ready"
